@@ -326,6 +326,11 @@ def gen_case(r: random.Random) -> Dict[str, Any]:
         lab_e = r.choice(pool + ["unknown"]) if r.random() < 0.4 else (lab if lab != "false_positive" else r.choice(target))
         xe, ye = (x + r.gauss(0, 0.5), y + r.gauss(0, 0.5)) if r.random() < 0.7 else place(lab_e)
         objs_est.append(O.obj3d(xe, ye, 0.0 if r.random() > 0.15 else r.choice([-1, 1]) * r.uniform(5.0, 20.0), O.rand_yaw(r), lab=lab_e, score=round(r.random(), 3), uuid=f"e{k}", attributes=r.choice(ATTR_POOL), raw_name=r.choice(RAW_NAMES[lab_e])))
+    for k in range(r.choice([0, 0, 1, 3])):
+        # estimates beyond the number of ground truths: results without a ground truth
+        lab_e = r.choice(pool + ["unknown"])
+        xe, ye = place(lab_e)
+        objs_est.append(O.obj3d(xe, ye, 0.0, O.rand_yaw(r), lab=lab_e, score=round(r.random(), 3), uuid=f"x{k}", attributes=r.choice(ATTR_POOL), raw_name=r.choice(RAW_NAMES[lab_e])))
     if frame == "map":
         objs_gt = [O.to_map(o, *ego) for o in objs_gt]
         objs_est = [O.to_map(o, *ego) for o in objs_est]
@@ -390,6 +395,8 @@ def run(ctx: Ctx) -> None:
                         ctx.check(all(id(o) in ids for o in out), "C10/widening_a_bound_removes_an_object", dict(is_gt=is_gt, narrow=len(out), wide=len(wide_out), changed=[k for k in q if q[k] is not kw.get(k)]), "filter_objects")
                 # results
                 res = mgr_mod.get_object_results(EvaluationTask.DETECTION, c["ests"], c["gts"], target_labels=p["target_labels"], transforms=p.get("transforms") or (O.transforms_for((0, 0, 0), 0.0) if c["frame"] == "map" else None))
+                if r.random() < 0.5:
+                    r.shuffle(res)  # any order (concatenated frames, confidence-sorted lists): the sub-list keeps it
                 kw = dict(p)
                 if c["uuids"] is not None and r.random() < 0.5:
                     kw["target_uuids"] = c["uuids"]
